@@ -14,10 +14,28 @@ TECHNIQUE = "differential monitor: DictLoader (source) vs compile_templates + Mo
 RULE = ("generated template sets (inheritance chains, include/import sets, statement and expression "
         "programs; names with '/', dots and non-ASCII) compiled ahead of time with every zip mode and "
         "loaded through ModuleLoader in a fresh environment (sync and async); every template of the set "
-        "is rendered both ways and must give the same text or the same exception class. distinct = "
-        "distinct set shapes x packaging mode")
+        "is rendered both ways and must give the same text or the same exception class; then every "
+        "template of the set is requested and rendered a SECOND time (reverse order) in the same two "
+        "environments: same text, and the second get_template returns the object of the first call "
+        "on both sides or on neither. HISTORIES (every 10th set, modes / sync-async / renames rotating): "
+        "a stateful template set -- a library template keeping a cycler / namespace / joiner (random "
+        "non-empty subset) at module level and advancing it in an exported macro; users that import it "
+        "(as / from / with context), a two-level import, an include of the importer, an extends+include "
+        "chain -- is precompiled and, for four (auto_reload, cache_size) configurations (default cache "
+        "with auto_reload on and off always, two of {0,1,2} x {on,off} in rotation), one environment per "
+        "side (DictLoader vs ModuleLoader) executes the same random history of 6..12 operations "
+        "{get_template+render (few names repeated), get_template(lib).module.tick(), render a template "
+        "object obtained earlier again, env.cache.clear()}; the sequences of (text | exception, which "
+        "of the template objects seen so far get_template returned) must be equal. distinct = "
+        "distinct set shapes x packaging mode + stateful (mode, carriers, rename)")
 LEVEL_TEXT = "held on the generated template sets only"
-ASSUMPTIONS = ["the precompiling and the loading environment share the same options and extensions"]
+ASSUMPTIONS = ["the precompiling and the loading environment share the same options and extensions",
+               "histories: the source side is a DictLoader whose mapping never changes, so with auto_reload "
+               "on or off a cached template stays valid and the documented template cache (cache_size) "
+               "hands out the same Template object until it is evicted / cleared; the precompiled files "
+               "are not modified either, so the same is expected of the module loader",
+               "state kept in template modules is observed only through cycler / namespace / joiner "
+               "objects set at the top level of an imported template"]
 NSHARDS = {"quick": 16, "thorough": 16}
 BUDGET_S = {"quick": 20, "thorough": 500}
 FLOORS = {
@@ -25,12 +43,26 @@ FLOORS = {
               "counters": {"mode_dir": 150, "mode_deflated": 150, "mode_stored": 150,
                            "templates_compared": 1500, "sets_with_inheritance_or_import": 150,
                            "shared_loader_sequences": 100, "name_dependent_autoescape_compares": 100,
-                           "multi_location_compares": 300}},
+                           "multi_location_compares": 300,
+                           "second_pass_compares": 550, "second_pass_same_template_object": 550,
+                           "stateful_histories": 90, "stateful_auto_reload_on": 45,
+                           "stateful_auto_reload_off": 45,
+                           "stateful_histories_where_state_shows": 90,
+                           "stateful_histories_with_a_template_served_again": 55,
+                           "stateful_sets_dir": 6, "stateful_sets_deflated": 6,
+                           "stateful_sets_stored": 6}},
     "thorough": {"evaluations": 40000, "distinct": 4000,
                  "counters": {"mode_dir": 3000, "mode_deflated": 3000, "mode_stored": 3000,
                               "templates_compared": 40000, "sets_with_inheritance_or_import": 3000,
                               "shared_loader_sequences": 2000, "name_dependent_autoescape_compares": 1500,
-                              "multi_location_compares": 5000}},
+                              "multi_location_compares": 5000,
+                              "second_pass_compares": 11000, "second_pass_same_template_object": 11000,
+                              "stateful_histories": 1800, "stateful_auto_reload_on": 900,
+                              "stateful_auto_reload_off": 900,
+                              "stateful_histories_where_state_shows": 1800,
+                              "stateful_histories_with_a_template_served_again": 1100,
+                              "stateful_sets_dir": 120, "stateful_sets_deflated": 120,
+                              "stateful_sets_stored": 120}},
 }
 
 _n = 0
@@ -103,6 +135,11 @@ def check_case(ctx, case, mode, is_async, tmp):
                           f"template {name!r}: source {a!r} vs precompiled {b!r} | {corpus.sources(case)}",
                           {"case": case, "mode": mode, "async": is_async})
             return
+    # history on the generated set: every template is requested and rendered a second time (reverse
+    # order) in the SAME two environments; text and "is it the template object handed out before"
+    # must agree
+    if not second_pass(ctx, case, mode, is_async, src_env, mod_env):
+        return
     # two differently configured environments may share ONE ModuleLoader, and globals may be
     # installed after a precompiled template was first loaded: both must behave like source loading
     def second(loader):
@@ -169,6 +206,188 @@ def check_case(ctx, case, mode, is_async, tmp):
             pass
     if miss.ok or type(miss.exc).__name__ != "TemplateNotFound":
         ctx.violation("precompiled:missing-name", f"{miss!r}", {"case": case, "mode": mode, "async": is_async})
+
+
+def second_pass(ctx, case, mode, is_async, src_env, mod_env):
+    first = {}
+    for label, env in (("source", src_env), ("precompiled", mod_env)):
+        first[label] = {n: util.capture(env.get_template, n) for n in case["asts"]}
+    for name in reversed(list(case["asts"])):
+        obs = {}
+        for label, env in (("source", src_env), ("precompiled", mod_env)):
+            t = util.capture(env.get_template, name)
+            f = first[label][name]
+            again = bool(t.ok and f.ok and t.value is f.value)
+            r = util.capture(lambda: t.value.render(corpus.realize_data(case, env))) if t.ok else t
+            obs[label] = (r, again)
+        ctx.ev()
+        ctx.count("second_pass_compares")
+        (a, ai), (b, bi) = obs["source"], obs["precompiled"]
+        if ai:
+            ctx.count("second_pass_same_template_object")
+        if not ((a.ok and b.ok and a.value == b.value) or
+                (not a.ok and not b.ok and type(a.exc) is type(b.exc))):
+            ctx.violation(f"precompiled:{mode}:{case['kind']}:second-render-in-same-environment",
+                          f"template {name!r} rendered a second time: source {a!r} vs precompiled {b!r} "
+                          f"| {corpus.sources(case)}", {"case": case, "mode": mode, "async": is_async})
+            return False
+        if ai != bi:
+            ctx.violation(f"precompiled:{mode}:repeated-get_template:{'rebuilt' if ai else 'reused'}-"
+                          f"where-source-loading-{'reuses' if ai else 'rebuilds'}",
+                          f"second get_template({name!r}) in the same environment returned the template "
+                          f"object of the first call: source loading {ai}, precompiled {bi}",
+                          {"case": case, "mode": mode, "async": is_async})
+            return False
+    return True
+
+
+# ------------------------------------------------------------ stateful sets
+# Template sets in which a template that others import keeps STATE in its
+# module (cycler / namespace / joiner set at top level and advanced by an
+# exported macro).  An import without context uses the module of the loaded
+# Template object, so what a history of renders shows depends on when the
+# environment hands out the same Template again and when it builds a new one.
+CARRIERS = {
+    "cycler": ("{% set counter = cycler('a', 'b', 'c') %}", "{{ counter.next() }}"),
+    "namespace": ("{% set ns = namespace(n=0) %}", "{% set ns.n = ns.n + 1 %}{{ ns.n }}"),
+    "joiner": ("{% set sep = joiner('|') %}", "{{ sep() }}x"),
+}
+CACHE_SIZES = (400, 0, 1, 2)
+
+
+def stateful_set(rng, rename):
+    chosen = [c for c in sorted(CARRIERS) if rng.random() < 0.6] or [rng.choice(sorted(CARRIERS))]
+    q = {n: rename(n) for n in ("lib", "main", "from", "ctx", "child", "base", "deep", "mid", "incl")}
+    lib = "".join(CARRIERS[c][0] for c in chosen) + "{% macro tick() %}" + \
+        "".join(CARRIERS[c][1] for c in chosen) + "{% endmacro %}"
+    srcs = {
+        q["lib"]: lib,
+        q["main"]: "{% import '" + q["lib"] + "' as lib %}[{{ lib.tick() }}]",
+        q["from"]: "{% from '" + q["lib"] + "' import tick %}<{{ tick() }}{{ tick() }}>",
+        q["ctx"]: "{% import '" + q["lib"] + "' as lib with context %}({{ lib.tick() }})",
+        q["child"]: "{% extends '" + q["base"] + "' %}{% block body %}{% include '" + q["main"]
+                    + "' %}{% endblock %}",
+        q["base"]: "<{% block body %}{% endblock %}>",
+        q["deep"]: "{% import '" + q["mid"] + "' as mid %}{{ mid.go() }}",
+        q["mid"]: "{% import '" + q["lib"] + "' as lib %}{% macro go() %}{{ lib.tick() }}{% endmacro %}",
+        q["incl"]: "{% include '" + q["main"] + "' %}{% include '" + q["from"] + "' %}",
+    }
+    return srcs, q, chosen
+
+
+def stateful_history(rng, q):
+    """ops: ['render', name] | ['module', lib] (call the exported macro through
+    Template.module) | ['held', k] (render the k-th template object obtained so
+    far once more) | ['clear'] (empty the environment's template cache)."""
+    users = [q[n] for n in ("main", "from", "ctx", "child", "deep", "incl", "lib")]
+    focus = rng.sample(users, rng.randint(1, 3))       # repeated loads of few names
+    ops = []
+    for _ in range(rng.randint(6, 12)):
+        x = rng.random()
+        if x < 0.70:
+            ops.append(["render", rng.choice(focus) if rng.random() < 0.75 else rng.choice(users)])
+        elif x < 0.82:
+            ops.append(["module", q["lib"]])
+        elif x < 0.94:
+            ops.append(["held", rng.randrange(8)])
+        else:
+            ops.append(["clear"])
+    return ops
+
+
+def play(env, ops):
+    """[(outcome repr, index of the template object among those seen | None)]"""
+    seen = []
+    out = []
+
+    def ident(t):
+        for i, s in enumerate(seen):
+            if s is t:
+                return i
+        seen.append(t)
+        return len(seen) - 1
+
+    for op in ops:
+        if op[0] == "clear":
+            if env.cache is not None:
+                env.cache.clear()
+            out.append(("cleared", None))
+            continue
+        if op[0] == "held":
+            if not seen:
+                out.append(("nothing-held", None))
+                continue
+            t = seen[op[1] % len(seen)]
+            out.append((repr(util.capture(t.render)), None))
+            continue
+        t = util.capture(env.get_template, op[1])
+        if not t.ok:
+            out.append((repr(t), None))
+            continue
+        i = ident(t.value)
+        if op[0] == "module":
+            out.append((repr(util.capture(lambda: str(t.value.module.tick()))), i))
+        else:
+            out.append((repr(util.capture(t.value.render)), i))
+    return out
+
+
+def check_stateful(ctx, spec, mode, is_async, base):
+    """spec: {'srcs', 'histories': [[auto_reload, cache_size, ops], ...]}"""
+    import importlib
+
+    import jinja2
+
+    zipmode = {"dir": None, "deflated": "deflated", "stored": "stored"}[mode]
+    srcs = spec["srcs"]
+    target = base + (".zip" if zipmode else "")
+    try:
+        jinja2.Environment(loader=jinja2.DictLoader(srcs), enable_async=is_async).compile_templates(
+            target, zip=zipmode, ignore_errors=False, log_function=lambda m: None)
+        importlib.invalidate_caches()
+        for ar, cs, ops in spec["histories"]:
+            res = {}
+            for label, mk in (("source", lambda: jinja2.DictLoader(srcs)),
+                              ("precompiled", lambda: jinja2.ModuleLoader(target))):
+                env = jinja2.Environment(loader=mk(), auto_reload=ar, cache_size=cs,
+                                         enable_async=is_async)
+                res[label] = play(env, ops)
+            ctx.ev()
+            ctx.count("stateful_histories")
+            ctx.count("stateful_history_ops", len(ops))
+            ctx.count("stateful_auto_reload_" + ("on" if ar else "off"))
+            a, b = res["source"], res["precompiled"]
+            if len({i for _, i in a if i is not None}) < sum(1 for _, i in a if i is not None):
+                ctx.count("stateful_histories_with_a_template_served_again")
+            if len({r for r, i in a if i is not None}) > 1:
+                ctx.count("stateful_histories_where_state_shows")
+            if a == b:
+                continue
+            cfg = f"auto_reload={'on' if ar else 'off'}:cache_size={'n' if cs > 0 else cs}"
+            k = next(i for i in range(len(ops)) if a[i] != b[i])
+            what = "output" if a[k][0] != b[k][0] else "template-identity"
+            ctx.violation(f"precompiled:{mode}:history:{what}:{cfg}",
+                          f"one environment ({cfg}, async={is_async}), history {ops}: step {k} {ops[k]} "
+                          f"gives {a[k]} when the set is loaded from source and {b[k]} when it is "
+                          f"precompiled ({mode}); full: source {a} vs precompiled {b} | {srcs}",
+                          {"stateful": spec, "mode": mode, "async": is_async})
+            return
+    finally:
+        if os.path.isdir(target):
+            shutil.rmtree(target, ignore_errors=True)
+        elif os.path.exists(target):
+            os.remove(target)
+
+
+def gen_stateful(rng, rename_index):
+    srcs, q, chosen = stateful_set(rng, RENAMES[rename_index % len(RENAMES)])
+    # the default cache with auto_reload on and off always, two of the six other
+    # (auto_reload, cache size) combinations in rotation
+    rest = [(ar, cs) for cs in CACHE_SIZES[1:] for ar in (True, False)]
+    cfgs = [(True, CACHE_SIZES[0]), (False, CACHE_SIZES[0]),
+            rest[(2 * rename_index) % 6], rest[(2 * rename_index + 1) % 6]]
+    hists = [[ar, cs, stateful_history(rng, q)] for ar, cs in cfgs]
+    return {"srcs": srcs, "carriers": chosen, "histories": hists}
 
 
 def check_names_and_paths(ctx, case, mode, is_async, base):
@@ -253,6 +472,16 @@ def run(ctx):
             mode = modes[i % 3]
             check_case(ctx, case, mode, is_async=(i % 4 == 3), tmp=tmp)
             ctx.dist([mode, corpus.shape(case)])
+            if i % 10 == 1:
+                j = i // 10
+                spec = gen_stateful(rng, j)
+                smode = modes[j % 3]
+                try:
+                    check_stateful(ctx, spec, smode, (j % 4 == 3), os.path.join(tmp, f"st{i}"))
+                except Exception as e:  # harness problems must not pass silently
+                    ctx.inconc(f"stateful-history sub-check crashed: {type(e).__name__}: {e}")
+                ctx.count("stateful_sets_" + smode)
+                ctx.dist(["stateful", smode, spec["carriers"], j % 4])
             if i < 2:
                 ctx.sample({"sources": corpus.sources(case), "mode": mode})
             i += 1
@@ -263,6 +492,9 @@ def run(ctx):
 def replay(ctx, case):
     tmp = tempfile.mkdtemp(prefix="vt_c31_")
     try:
+        if "stateful" in case:
+            check_stateful(ctx, case["stateful"], case["mode"], case["async"], os.path.join(tmp, "st"))
+            return
         check_case(ctx, case["case"], case["mode"], case["async"], tmp)
     finally:
         shutil.rmtree(tmp, ignore_errors=True)
